@@ -76,6 +76,7 @@ class Ideal:
         self.dbs = {}        # dbid -> dir
         self.mids = {}       # mid -> ((dir,name), kt)
         self.limited = False # RLIMIT_FSIZE lowered: a flush/sync may legitimately report an error
+        self.last_dirty = None   # (map, answer) when the previous op was `dirty` (is_dirty through some handle)
 
     def check(self, ops, lines, stop_at_first=True):
         bad = []
@@ -96,6 +97,12 @@ class Ideal:
         """None if `got` is acceptable, else a description of what the ideal map requires"""
         t = op.split()
         k = t[0]
+        prev, self.last_dirty = self.last_dirty, None
+        if k == 'dirty' and t[1] in self.mids and got in ('true', 'false'):
+            # handles of one map alias ONE state: two is_dirty() calls back to back through two of them give one answer
+            self.last_dirty = (self.mids[t[1]][0], got)
+            if prev and prev[0] == self.last_dirty[0] and prev[1] != got:
+                return '%s (is_dirty through another handle of the same map, asked just before, answered %s)' % (prev[1], prev[1])
         if k == 'db':
             self.dbs[t[1]] = t[2]; return None if got == 'ok' else 'ok'
         if k == 'dbclone':
